@@ -98,7 +98,11 @@ def r5_2(ctx):
                     if p["exit"] is not None and p["exit"][0] == "return" and vals and vals[-1] not in ("FINISHED_SUCCESS", "FINISHED_FAILURE"):
                         ctx.violation(con + ":other-status", loc, f"unexpected status store {vals}")
     # who-may-write status inside simulate's reach: only the loop itself
+    # (a private piece of simulate() itself -- called from nowhere else -- is part of the loop: its stores are in the table above)
+    own = with_private_pieces(ctx, {f.qualname})
     for g in sim_reach(ctx, precise=not ctx.thorough):
+        if g.qualname in own and g.cls == PROJECT:
+            continue
         for ef in ctx.eff.of(g):
             if ef.kind == "store" and ef.attr == "status" and ef.cls in (None, PROJECT):
                 ctx.violation(construct(g, "status-writer"), ef.loc, "project status written from inside a step phase")
